@@ -141,6 +141,20 @@ CLAIMED['C12'] = dict(
          "serde_json escaping, control characters in XML. Replay/validation: the real functions through hooks on all scripts of length <= 5.",
     design='§5 C12')
 
+CLAIMED['C08'] = dict(
+    category='model_checking',
+    text="Kernels of the whitespace discipline decided on the real MIR: push_vertical_spaces (the buffer then ends in clamp(count+trailing, lower+1, upper+1) "
+         "newlines, never more than upper blank lines, idempotent; all four quantities symbolic), the final-newline truncation of format_lines and "
+         "append_newline, Indent::to_string / to_string_with_newline for widths up to 86 columns and tab_spaces 1..8 (= [newline] tabs spaces, no tab "
+         "without hard_tabs; both the constant-buffer slice and the string-building path), convert_to_windows_newlines as a per-character step "
+         "(every emitted LF preceded by CR, nothing but terminators changes), convert_to_unix_newlines = str::replace(CRLF, LF) checked structurally and "
+         "its consequence decided in the solver's string theory for strings <= 5 (thorough 8), auto_detect_newline_style = style of the first "
+         "terminator, and skip_empty_lines (a leading line is skipped iff it is all whitespace).",
+    note="Known finding (open): Unix conversion leaves a CRLF for CR CR LF. Trusted: MIR printer, mirsym incl. mid-function start at loop heads, SMT-LIB "
+         "str.replace_all as the semantics of str::replace, cursor summaries for Chars/Peekable, trimmed.is_empty() as an uninterpreted all-whitespace "
+         "predicate, FormatLines.newline_count = trailing newlines (C07). Outside: list machinery, copied code, lower > upper.",
+    design='§5 C08')
+
 NA = {
     'C01': "token-sequence equivalence over all programs requires symbolic execution of rustc_parse and ~30 kLoC of AST rewriters; no encodable kernel carries it",
     'C02': "fixed-point of the full formatting pipeline (parser + all rewriters on both sides); not encodable, and idempotence of kernels does not imply it",
